@@ -380,7 +380,41 @@ func optionHelperShape(g *gen.Generator, name string) (bool, string) {
 		neg, cond = true, u.X
 	}
 	ce, ok := cond.(*ast.CallExpr)
-	if !ok || !strings.HasSuffix(types.ExprString(ce.Fun), "HasExtension") || len(ce.Args) != 2 || types.ExprString(ce.Args[1]) != types.ExprString(rng.Value) {
+	// the per-element test: proto.HasExtension(ext, e), or a helper "is the option in effect" that is
+	// HasExtension(ext, e) refined by the option's own value (GetExtension)
+	isElemTest := func(ce *ast.CallExpr) bool {
+		if len(ce.Args) != 2 || types.ExprString(ce.Args[1]) != types.ExprString(rng.Value) {
+			return false
+		}
+		if strings.HasSuffix(types.ExprString(ce.Fun), "HasExtension") {
+			return true
+		}
+		id, isID := ce.Fun.(*ast.Ident)
+		if !isID {
+			return false
+		}
+		h := g.FuncDecl(id.Name)
+		if h == nil || h.Body == nil || h.Type.Params.NumFields() != 2 {
+			return false
+		}
+		has, other := false, false
+		ast.Inspect(h.Body, func(n ast.Node) bool {
+			if c2, isC := n.(*ast.CallExpr); isC {
+				switch fn := types.ExprString(c2.Fun); {
+				case strings.HasSuffix(fn, "HasExtension"):
+					has = true
+				case strings.HasSuffix(fn, "GetExtension"):
+				default:
+					if _, isConv := c2.Fun.(*ast.ParenExpr); !isConv {
+						other = true
+					}
+				}
+			}
+			return true
+		})
+		return has && !other
+	}
+	if !ok || !isElemTest(ce) {
 		return false, "condition is not proto.HasExtension(ext, <element>)"
 	}
 	if len(ifs.Body.List) != 1 {
